@@ -572,6 +572,8 @@ func TestVerifC19(t *testing.T) {
 	if part != "stub" {
 		c19KeysInAction(m, k, r)
 		c19SlotsInAction(m, k, r, native)
+		c19AnswerKeysInAction(m, k, r)
+		c19PnameWidths(m, k, r)
 	}
 	m.Set("programs", programs)
 	m.Set("disagreements_checked", int(m.Counter("struct_pairs_compared")+m.Counter("constants_compared")+m.Counter("tuple_keys_compared")+m.Counter("connectivity_slots_probed")))
@@ -582,6 +584,13 @@ func TestVerifC19(t *testing.T) {
 			"slot_consumer_exercised/listen_socket_map", "slot_consumer_exercised/lpm_array_map", "slot_consumer_exercised/routing_meta_map", "slot_consumer_exercised/routing_map",
 			"routing_installs_crossing_the_ring_end")
 		m.Require("tuple_keys_compared", "connectivity_slots_probed", "domain_keys_probed", "lpm_keys_probed", "lpm_key_bytes_compared", "tuple_keys_compared_reverse_hooks", "entry_point_lookups_hit/v4-after-v6", "entry_point_lookups_hit/v6-after-v4", "entry_point_lookups_hit/v4-after-v4")
+		// domain-table keys over whole answers: every record-order shape, several entries per goroutine, both oracle branches
+		m.Require("answer_entries_processed", "answer_shapes/v4-after-v6", "answer_shapes/v6-after-v4", "answer_shapes/v4-after-v4", "answer_shapes/v6-after-v6", "answer_shapes/mapped",
+			"answer_shapes/duplicates", "answer_shapes/non-address-record-between", "answer_permutation_sets_exhausted", "answer_goroutines_with_several_entries", "answer_entries_with_5_to_8_records",
+			"answer_entries_rewritten_with_another_answer", "answer_removals_checked", "answer_keys_compared_with_kernel", "answer_frames_routed_by_installed_key", "answer_tables_empty_after_removal")
+		// fixed-width name field: every length class around the width, by bytes and through route()
+		m.Require("pname_values_compared/shorter", "pname_values_compared/width-2", "pname_values_compared/width-1", "pname_values_compared/width+0", "pname_values_compared/width+1", "pname_values_compared/width+2",
+			"pname_values_compared/much-longer", "pname_rules_hit_in_route")
 	}
 	m.Done(t)
 }
